@@ -14,6 +14,10 @@ pub struct Case {
     pub src: SrcSpec,
     pub alpha: f32,
     pub ctm: Xf,
+    /// an extra transform of the gradient's own (user space -> the space the constructor's coordinates are in),
+    /// put into the public `Source` variant by hand: an elliptical radial gradient, a sheared sweep, ...
+    #[serde(default)]
+    pub own: Option<Xf>,
 }
 
 /// gradient parameter t at user-space point p, by the statement's definitions; None = no admissible circle
@@ -137,8 +141,31 @@ pub fn check(c: &Case) -> CheckResult {
     pb.close();
     let opts = DrawOptions { blend_mode: BlendMode::Src, alpha: c.alpha, antialias: AntialiasMode::Gray };
     let cover = pb.finish();
-    c.src.with(|s| dt.fill(&cover, s, &opts));
+    let own_t = c.own.map(|e| to_transform(&e));
+    let draw = |d: &mut DrawTarget, o: &DrawOptions| {
+        c.src.with(|s| match &own_t {
+            Some(e) => d.fill(&cover, &moved_source(s, e), o),
+            None => d.fill(&cover, s, o),
+        })
+    };
+    draw(&mut dt, &opts);
     let got = dt.get_data();
+    // user space -> gradient space, and the linear part of gradient space -> device space
+    let to_grad = |p: (f64, f64)| match &c.own {
+        Some(e) => xf_apply(e, p),
+        None => p,
+    };
+    let fwd: [f64; 4] = {
+        let m = &c.ctm;
+        let cm = [m[0] as f64, m[1] as f64, m[2] as f64, m[3] as f64];
+        match &c.own {
+            Some(e) => {
+                let Some(oi) = xf_inverse64(e) else { return Err("HARNESS: singular own transform".into()) };
+                [oi[0] * cm[0] + oi[1] * cm[2], oi[0] * cm[1] + oi[1] * cm[3], oi[2] * cm[0] + oi[3] * cm[2], oi[2] * cm[1] + oi[3] * cm[3]]
+            }
+            None => cm,
+        }
+    };
     // The same fill through a clip *path* (a pixel-aligned rectangle that leaves the first columns and rows out):
     // spans then start left of the first visible pixel and go through the clip-mask blitters, with Src and with
     // SrcOver. Inside the clip the colours must be the unclipped ones, outside nothing may be drawn.
@@ -151,7 +178,7 @@ pub fn check(c: &Case) -> CheckResult {
             d2.push_clip(&cp.finish());
             d2.set_transform(&to_transform(&c.ctm));
             let o2 = DrawOptions { blend_mode: mode, alpha: c.alpha, antialias: AntialiasMode::Gray };
-            c.src.with(|s| d2.fill(&cover, s, &o2));
+            draw(&mut d2, &o2);
             let g2 = d2.get_data();
             for py in 0..c.h {
                 for px in 0..c.w {
@@ -191,7 +218,7 @@ pub fn check(c: &Case) -> CheckResult {
     for py in 0..c.h {
         for px in 0..c.w {
             let i = (py * c.w + px) as usize;
-            let user = xf_apply64(&inv, (px as f64 + 0.5, py as f64 + 0.5));
+            let user = to_grad(xf_apply64(&inv, (px as f64 + 0.5, py as f64 + 0.5)));
             let Some(t) = param(&c.src, user) else {
                 if got[i] != 0 {
                     return Err(format!("pixel ({},{}) has no admissible circle of the two-circle gradient but is {} instead of transparent", px, py, hex(got[i])));
@@ -206,9 +233,9 @@ pub fn check(c: &Case) -> CheckResult {
             if let SrcSpec::Sweep { cx, cy, .. } = &c.src {
                 // (distances in device pixels: the centre and the ray mapped through the CTM)
                 let (dx, dy) = (user.0 - *cx as f64, user.1 - *cy as f64);
-                let m = &c.ctm;
-                let dev = (dx * m[0] as f64 + dy * m[2] as f64, dx * m[1] as f64 + dy * m[3] as f64);
-                let ray = (m[0] as f64, m[1] as f64);
+                let m = &fwd;
+                let dev = (dx * m[0] + dy * m[2], dx * m[1] + dy * m[3]);
+                let ray = (m[0], m[1]);
                 let rl = (ray.0 * ray.0 + ray.1 * ray.1).sqrt();
                 let r = (dev.0 * dev.0 + dev.1 * dev.1).sqrt();
                 let along = (dev.0 * ray.0 + dev.1 * ray.1) / rl;
@@ -322,7 +349,7 @@ pub fn check(c: &Case) -> CheckResult {
         for py in 0..c.h {
             for px in 0..c.w {
                 let i = (py * c.w + px) as usize;
-                let user = xf_apply64(&inv, (px as f64 + 0.5, py as f64 + 0.5));
+                let user = to_grad(xf_apply64(&inv, (px as f64 + 0.5, py as f64 + 0.5)));
                 if let Some(t) = param(&c.src, user) {
                     let e = 3.0 / 255.0 + if widen { t.abs() / 255.0 } else { 0.0 } + 1e-4;
                     if let SrcSpec::Sweep { .. } = &c.src {
@@ -364,6 +391,7 @@ pub fn check(c: &Case) -> CheckResult {
     o.class_if(tmin < 0.0, "t<0-seen");
     o.class_if(tmax > 1.0, "t>1-seen");
     o.class_if(a255 < 255.0, "alpha<1");
+    o.class_if(c.own.is_some(), "own-transform-in-the-variant");
     if let SrcSpec::TwoCircle { r1, .. } = &c.src {
         o.class_if(*r1 == 0.0, "twocircle:focal-point");
     }
@@ -410,10 +438,16 @@ pub fn strategy(ctx: &Ctx) -> BoxedStrategy<Case> {
             // zoom: the same picture described in user units that are `zoom` times smaller under a CTM that is
             // `zoom` times larger (a drawing in metres shown at 1:4096, or in device-independent units at 1/64)
             let zoom = prop_oneof![10 => Just(1.0f32), 1 => Just(4096.0f32), 1 => Just(65536.0f32), 1 => Just(256.0f32), 1 => Just(1.0f32 / 64.0)];
-            (Just((w, h)), src, alpha, prop_oneof![2 => Just(IDENT), 3 => xf_invertible(6.0)], zoom)
+            let own = prop_oneof![3 => Just(None), 1 => xf_invertible(4.0).prop_map(Some)];
+            (Just((w, h)), src, alpha, prop_oneof![2 => Just(IDENT), 3 => xf_invertible(6.0)], zoom, own)
         })
-        .prop_map(|((w, h), mut src, alpha, mut ctm, z)| {
+        .prop_map(|((w, h), mut src, alpha, mut ctm, z, mut own)| {
             if z != 1.0 {
+                // (the own transform maps zoomed user units to zoomed gradient units: its translation shrinks too)
+                if let Some(e) = own.as_mut() {
+                    e[4] /= z;
+                    e[5] /= z;
+                }
                 match &mut src {
                     SrcSpec::Linear { x0, y0, x1, y1, .. } => {
                         for v in [x0, y0, x1, y1] {
@@ -441,7 +475,7 @@ pub fn strategy(ctx: &Ctx) -> BoxedStrategy<Case> {
                     *v *= z;
                 }
             }
-            Case { w, h, src, alpha, ctm }
+            Case { w, h, src, alpha, ctm, own }
         })
         .boxed()
 }
@@ -450,10 +484,10 @@ pub fn property(ctx: &Ctx) -> Property {
     let c = ctx.clone();
     Property {
         id: "C12",
-        rule: "cases: linear (extent >= 1 px), radial (r >= 1), two-circle (first circle strictly inside the second) and sweep gradients built with the Source::new_* constructors; 1-5 stops at strictly increasing positions (gaps >= 0.02, ends not necessarily 0/1) with random unpremultiplied colours or probe ramps; Pad/Repeat/Reflect; global alpha; identity or any invertible CTM, optionally with user space zoomed (units 256, 4096 or 65536 times smaller, or 64 times larger, under a correspondingly scaled CTM); 4..24 px surfaces, rendered with a full-surface Src fill (in half of the cases after an empty layer group or a clear under a clip that come between set_transform and the draw; and again, Src and SrcOver, through a pixel-aligned clip path that cuts off the first columns: same colours inside, nothing outside). Oracle: f64 parameter t per pixel centre (through the inverse CTM) by the statement's definitions, colour = piecewise-linear interpolation of the unpremultiplied stops after the spread map, premultiplied and scaled by alpha; every channel must lie within 4/255 of the range that colour takes for t within 3/255 (+|t|/255 for two-circle and sweep) of the pixel's t; Pad pixels beyond an end all show one identical colour; two-circle pixels without admissible circle are transparent. Non-trivial: >=3 distinct colours on the surface and t spanning >= 0.25; distinct by hash of the case.",
+        rule: "cases: linear (extent >= 1 px), radial (r >= 1), two-circle (first circle strictly inside the second) and sweep gradients built with the Source::new_* constructors, a quarter of them with a further invertible transform of their own composed into the public Source variant by hand (elliptical radial gradients, sheared sweeps; the oracle maps the pixel centre through the inverse CTM and then through that transform); 1-5 stops at strictly increasing positions (gaps >= 0.02, ends not necessarily 0/1) with random unpremultiplied colours or probe ramps; Pad/Repeat/Reflect; global alpha; identity or any invertible CTM, optionally with user space zoomed (units 256, 4096 or 65536 times smaller, or 64 times larger, under a correspondingly scaled CTM); 4..24 px surfaces, rendered with a full-surface Src fill (in half of the cases after an empty layer group or a clear under a clip that come between set_transform and the draw; and again, Src and SrcOver, through a pixel-aligned clip path that cuts off the first columns: same colours inside, nothing outside). Oracle: f64 parameter t per pixel centre (through the inverse CTM) by the statement's definitions, colour = piecewise-linear interpolation of the unpremultiplied stops after the spread map, premultiplied and scaled by alpha; every channel must lie within 4/255 of the range that colour takes for t within 3/255 (+|t|/255 for two-circle and sweep) of the pixel's t; Pad pixels beyond an end all show one identical colour; two-circle pixels without admissible circle are transparent. Non-trivial: >=3 distinct colours on the surface and t spanning >= 0.25; distinct by hash of the case.",
         assumptions: vec!["sweep pixels within 1.5 px of the centre or within 0.75 px of the angle-0 ray are not judged (angle discontinuity inside the pixel)"],
         parts: vec![part("render", 60_000, 1_000_000, move || strategy(&c), check)],
-        min_class_fraction: vec![("render", "src:linear", 0.15), ("render", "src:radial", 0.15), ("render", "src:twocircle", 0.15), ("render", "src:sweep", 0.15), ("render", "spread:reflect", 0.2), ("render", "t>1-seen", 0.3), ("render", "t<0-seen", 0.1), ("render", "linear:horizontal-right-to-left", 0.005), ("render", "linear:vertical", 0.01), ("render", "twocircle:focal-point", 0.02), ("render", "twocircle:centres-share-one-coordinate", 0.03), ("render", "ctm-scale>=1000", 0.05)],
+        min_class_fraction: vec![("render", "src:linear", 0.15), ("render", "src:radial", 0.15), ("render", "src:twocircle", 0.15), ("render", "src:sweep", 0.15), ("render", "spread:reflect", 0.2), ("render", "t>1-seen", 0.3), ("render", "t<0-seen", 0.1), ("render", "linear:horizontal-right-to-left", 0.005), ("render", "linear:vertical", 0.01), ("render", "twocircle:focal-point", 0.02), ("render", "twocircle:centres-share-one-coordinate", 0.03), ("render", "ctm-scale>=1000", 0.05), ("render", "own-transform-in-the-variant", 0.1)],
         panic_is_violation: false,
     }
 }
